@@ -37,8 +37,14 @@ class Report:
         self.prop = prop
         self.items = []
         self.notes = []
+        self.touched = {}      # qualname -> (relpath, first line): functions some rule instance reported on
 
     def _loc(self, f, node):
+        if isinstance(f, FuncInfo):
+            top = f
+            while top.parent is not None:
+                top = top.parent
+            self.touched.setdefault(top.qualname, (top.module.relpath, top.node.lineno))
         if f is None:
             return ""
         if isinstance(f, str):
